@@ -8,7 +8,7 @@ from __future__ import annotations
 import copy
 
 __all__ = ["unit", "native", "sym_int", "sym_bool", "sym_fixed", "sym_map", "sym_list", "assume", "check", "reach", "note",
-           "implies", "ite", "all_of", "split", "stub", "unstub", "snapshot", "same", "check_same"]
+           "implies", "ite", "all_of", "split", "run_slice", "stub", "unstub", "snapshot", "same", "check_same"]
 
 UNITS = {}
 MODEL = {}
@@ -171,6 +171,33 @@ def implies(p, q):
 
 def ite(c, a, b):
     return a if c else b
+
+
+def run_slice(module, qualname, if_test, env0, keep, capture_calls=(), nth=0):
+    import ast as _ast
+    import importlib
+    from . import slices
+    m = importlib.import_module(module)
+    with open(m.__file__) as f:
+        tree = _ast.parse(f.read())
+    body = slices.select(tree, qualname, if_test, nth)
+    items = slices.keep_statements(body, set(keep), tuple(capture_calls))
+    env = dict(env0)
+    tests, captured = [], []
+    g = m.__dict__
+    for kind, node in items:
+        if kind == "stmt":
+            exec(compile(_ast.fix_missing_locations(_ast.Module([node], [])), "<slice>", "exec"), g, env)
+        else:
+            try:
+                v = eval(compile(_ast.fix_missing_locations(_ast.Expression(node)), "<slice>", "eval"), g, env)
+            except Exception:
+                v = None
+            (tests if kind == "test" else captured).append(v)
+    env["__tests__"] = tests
+    env["__captured__"] = captured
+    env["__n_statements__"] = len([1 for kind, _ in items if kind == "stmt"])
+    return env
 
 
 def split(x):
